@@ -14,15 +14,205 @@ package http
 // reqInterrupted: whether the request phases produced an interruption (definitional ghost effect of processRequest).
 //@ ghost var reqInterrupted bool
 //@ ghost var reqFailed bool
-//@ func processRequest props C18
-//@   modifies inferred, reqInterrupted, reqFailed
+// The body splice (C18): when nothing interrupts and nothing fails, what the handler will read from req.Body is exactly
+// what the client's body still delivered on entry -- the prefix the transaction buffered (io.MultiReader's first
+// part) followed by the unread rest -- whether or not the length was known, whatever the limit; a body that is not
+// inspected is not touched. (rest / ioVer / txReqBuf: /verif/specs/http.spec; a fresh transaction has an empty buffer.)
+//@ func processRequest props C18,C07
+//@   requires req != nil && !isnil(tx)
+//@   modifies inferred, reqInterrupted, reqFailed, txVer, ioVer
 //@   ensures def_it: reqInterrupted == (result0 != nil)
 //@   ensures def_err: reqFailed == !isnil(result1)
+//@   ensures splice: result0 == nil && isnil(result1) && old(txReqBuf(txVer, tx)) == "" ==> rest(ioVer, req.Body) == old(rest(ioVer, req.Body))
+//@   ensures bodyKept: !isnil(old(req.Body)) ==> !isnil(req.Body)
+//@   at "req.Body = io.NopCloser(bodyReader)" requires spliced: old(txReqBuf(txVer, tx)) == "" ==> rest(ioVer, bodyReader) == old(rest(ioVer, req.Body))
+//@   loop 1
+//@     invariant txReqBuf(txVer, tx) == old(txReqBuf(txVer, tx))
+//@   loop 2
+//@     invariant txReqBuf(txVer, tx) == old(txReqBuf(txVer, tx))
+//@   loop 3
+//@     invariant txReqBuf(txVer, tx) == old(txReqBuf(txVer, tx))
 
 // The wrapped handler is never called for a request that was interrupted (or whose processing failed) in a request
 // phase, and then exactly the interruption's status goes to the client (C18).
 //@ func WrapHandler$3 props C18
 //@   requires freshRequest: !reqInterrupted && !reqFailed
-//@   modifies inferred, handlerCalls, headerWrites, lastStatus, reqInterrupted, reqFailed
+//@   requires r != nil
+//@   modifies inferred, handlerCalls, headerWrites, lastStatus, reqInterrupted, reqFailed, txVer, ioVer, downBytes, flushCalls
 //@   ensures blocked: reqInterrupted && !reqFailed && handlerCalls != old(handlerCalls) ==> false
 //@   ensures atMostOnce: handlerCalls == old(handlerCalls) || handlerCalls == old(handlerCalls) + 1
+// ... and the client gets one status line -- the interruption's -- and not a single body byte
+//@   ensures blockedNothingOut: reqInterrupted && !reqFailed ==> downBytes == old(downBytes) && headerWrites == old(headerWrites) + 1
+//@   at call "w.WriteHeader(obtainStatusCodeFromInterruptionOrDefault" requires interruptionStatus: arg(0) == itStatus(it, 200)
+
+// ---------------------------------------------------------------- response interception (C18)
+// Abstract state (trusted specs in /verif/specs/http.spec): downBytes = the body bytes handed to the downstream
+// writer, headerWrites / lastStatus = WriteHeader calls that reached it, flushCalls = Flush calls that reached it,
+// txIntr / txResAccess / txResProc / txResBuf = the transaction's interruption, response-body switches and buffer.
+
+//@ define intr(i *rwInterceptor) bool := txIntr(txVer, i.tx) != nil
+//@ define buffering(i *rwInterceptor) bool := txResAccess(txVer, i.tx) && txResProc(txVer, i.tx) && !i.wroteBufferedBodyToDownstream
+// the status an interruption sends (obtainStatusCodeFromInterruptionOrDefault as a function)
+//@ define itStatus(it *types.Interruption, def int) int :=
+//@     ite(it.Action == "deny" || it.Action == "drop" || it.Action == "redirect", ite(it.Status != 0, it.Status, 403), def)
+// The status line is forwarded at most once: the flag only goes up, the downstream counter moves exactly when it does,
+// and the status that went out is the one recorded at that moment.
+//@ define fwdOnce(f0 bool, f1 bool, hw0 int, hw1 int) bool := (f0 ==> f1) && hw1 == hw0 + ite(f1 && !f0, 1, 0)
+
+// wired: the interceptor was built by wrap around a real writer and a transaction (never changes afterwards).
+//@ define wired(i *rwInterceptor) bool := !isnil(i.w) && !isnil(i.tx)
+
+//@ func (*rwInterceptor).overrideWriteHeader props C18,C07
+//@   modifies i.statusCode
+//@   ensures i.statusCode == statusCode
+
+//@ func (*rwInterceptor).flushWriteHeader props C18,C07
+//@   requires wired(i)
+//@   modifies i.isWriteHeaderFlush, headerWrites, lastStatus
+//@   ensures flushed: i.isWriteHeaderFlush
+//@   ensures once: fwdOnce(old(i.isWriteHeaderFlush), i.isWriteHeaderFlush, old(headerWrites), headerWrites)
+//@   ensures status: !old(i.isWriteHeaderFlush) ==> lastStatus == i.statusCode
+//@   ensures noResend: old(i.isWriteHeaderFlush) ==> lastStatus == old(lastStatus)
+
+// Header is the downstream writer's header map (the handler edits it in place).
+//@ func (*rwInterceptor).Header props C18,C07
+//@   requires wired(i)
+//@   modifies nothing
+//@   ensures result != nil
+
+//@ func (*rwInterceptor).cleanHeaders props C18,C07
+//@   requires wired(i)
+//@   modifies nothing
+
+// hdrVer: the transaction state token right after WriteHeader fed the response headers and ran phase 3
+// (definitional ghost effect of the first WriteHeader; later calls are superfluous and change nothing).
+//@ ghost field rwInterceptor hdrVer int
+
+// WriteHeader (C18): the first call records the handler's status without forwarding it (101 excepted); when phase 3
+// interrupts, the interruption's status replaces it and goes out at once. Nothing is forwarded twice.
+//@ func (*rwInterceptor).WriteHeader props C18,C07
+//@   requires wired(i)
+//@   modifies i.wroteHeader, i.statusCode, i.isWriteHeaderFlush, i.allowFlushing, i.hdrVer, headerWrites, lastStatus, txVer
+//@   ensures def_hdrVer: i.hdrVer == ite(old(i.wroteHeader), old(i.hdrVer), txVer)
+//@   ensures superfluous: old(i.wroteHeader) ==> i.statusCode == old(i.statusCode) && i.isWriteHeaderFlush == old(i.isWriteHeaderFlush) &&
+//@       i.allowFlushing == old(i.allowFlushing) && headerWrites == old(headerWrites) && lastStatus == old(lastStatus) && txVer == old(txVer)
+//@   ensures wrote: i.wroteHeader
+//@   ensures once: fwdOnce(old(i.isWriteHeaderFlush), i.isWriteHeaderFlush, old(headerWrites), headerWrites)
+//@   ensures noResend: old(i.isWriteHeaderFlush) ==> lastStatus == old(lastStatus)
+//@   ensures bufKept: txResBuf(txVer, i.tx) == txResBuf(old(txVer), i.tx)
+//@   ensures blocked: !old(i.wroteHeader) && !old(intr(i)) && intr(i) ==> i.statusCode == itStatus(txIntr(txVer, i.tx), statusCode) &&
+//@       i.isWriteHeaderFlush && (!old(i.isWriteHeaderFlush) ==> lastStatus == i.statusCode) && i.allowFlushing == old(i.allowFlushing)
+//@   ensures passed: !old(i.wroteHeader) && !old(intr(i)) && !intr(i) ==> i.statusCode == statusCode &&
+//@       (statusCode == 101 ==> i.isWriteHeaderFlush && (!old(i.isWriteHeaderFlush) ==> lastStatus == statusCode)) &&
+//@       (statusCode != 101 ==> i.isWriteHeaderFlush == old(i.isWriteHeaderFlush) && lastStatus == old(lastStatus)) &&
+//@       i.allowFlushing == (old(i.allowFlushing) || !txResAccess(txVer, i.tx) || !txResProc(txVer, i.tx))
+// feeding the response headers to the transaction runs no rule and touches no body buffer
+//@   loop 1
+//@     invariant txIntr(txVer, i.tx) == old(txIntr(txVer, i.tx)) && txResBuf(txVer, i.tx) == old(txResBuf(txVer, i.tx))
+//@   loop 2
+//@     invariant txIntr(txVer, i.tx) == old(txIntr(txVer, i.tx)) && txResBuf(txVer, i.tx) == old(txResBuf(txVer, i.tx))
+
+// Releasing the buffered response body (C18): the status goes out first, then exactly the transaction's buffered
+// bytes, once; a second call does nothing. The transaction is not touched.
+//@ func (*rwInterceptor).writeBufferedResponseBodyToDownstream props C18,C07
+//@   requires wired(i) && isDownstream(i.w)
+//@   modifies inferred, headerWrites, lastStatus, downBytes, ioVer
+//@   ensures alreadyReleased: old(i.wroteBufferedBodyToDownstream) ==> isnil(result) && downBytes == old(downBytes) && headerWrites == old(headerWrites) &&
+//@       lastStatus == old(lastStatus) && i.statusCode == old(i.statusCode) && i.isWriteHeaderFlush == old(i.isWriteHeaderFlush) && i.wroteBufferedBodyToDownstream
+//@   ensures released: !old(i.wroteBufferedBodyToDownstream) && isnil(result) ==> i.wroteBufferedBodyToDownstream &&
+//@       downBytes == old(downBytes) + txResBuf(txVer, i.tx) && i.statusCode == old(i.statusCode)
+//@   ensures failedRelease: !isnil(result) ==> !i.wroteBufferedBodyToDownstream
+//@   ensures frame: i.wroteHeader == old(i.wroteHeader) && i.allowFlushing == old(i.allowFlushing) && i.isHijacked == old(i.isHijacked) &&
+//@       i.hdrVer == old(i.hdrVer) && i.w == old(i.w) && i.tx == old(i.tx) && txVer == old(txVer) && flushCalls == old(flushCalls)
+//@   ensures bytesKept: forall s []byte :: !fresh(s) ==> str(s) == old(str(s))
+//@   ensures statusFirst: !old(i.wroteBufferedBodyToDownstream) ==> i.isWriteHeaderFlush && (!old(i.isWriteHeaderFlush) ==> lastStatus == i.statusCode)
+//@   ensures once: fwdOnce(old(i.isWriteHeaderFlush), i.isWriteHeaderFlush, old(headerWrites), headerWrites)
+//@   ensures noResend: old(i.isWriteHeaderFlush) ==> lastStatus == old(lastStatus)
+
+// ---------------------------------------------------------------- Write (C18)
+// D = the transaction state the decision "buffer or pass through" is taken in: the state at entry when the header
+// was already recorded, else the state right after the implicit WriteHeader(200) fed the headers and ran phase 3.
+//@ define intrAt(v int, i *rwInterceptor) bool := txIntr(v, i.tx) != nil
+//@ define bufAt(v int, i *rwInterceptor) bool := txResAccess(v, i.tx) && txResProc(v, i.tx)
+//@ func (*rwInterceptor).Write props C18,C07
+//@   requires wired(i) && isDownstream(i.w)
+//@   modifies inferred, headerWrites, lastStatus, downBytes, ioVer, txVer, i.hdrVer
+// (c) already interrupted: nothing at all happens, the handler is told everything was written
+//@   ensures alreadyInterrupted: old(intr(i)) ==> result0 == len(b) && isnil(result1) && downBytes == old(downBytes) &&
+//@       headerWrites == old(headerWrites) && lastStatus == old(lastStatus) && txVer == old(txVer)
+// (c) interrupted by phase 3 during the implicit WriteHeader: none of b may reach the client
+// (FINDING on the pinned tree: undischarged at the pass-through return -- body not buffered, handler calls Write without
+// WriteHeader, a phase-3 rule denies: the 403 goes out and the first chunk is still handed to the downstream writer)
+//@   ensures blockedAtHeaders: !old(intr(i)) && intrAt(ite(old(i.wroteHeader), old(txVer), i.hdrVer), i) &&
+//@       !(bufAt(ite(old(i.wroteHeader), old(txVer), i.hdrVer), i) && !old(i.wroteBufferedBodyToDownstream)) ==> downBytes == old(downBytes)
+// (a) pass-through: the status line first (the handler's, 200 by default), then exactly b; the result is the downstream writer's
+//@   ensures passThrough: !old(intr(i)) && !intrAt(ite(old(i.wroteHeader), old(txVer), i.hdrVer), i) &&
+//@       !(bufAt(ite(old(i.wroteHeader), old(txVer), i.hdrVer), i) && !old(i.wroteBufferedBodyToDownstream)) ==>
+//@       0 <= result0 && result0 <= len(b) && downBytes == old(downBytes) + old(str(b))[0:result0] && (result0 < len(b) ==> !isnil(result1)) &&
+//@       i.isWriteHeaderFlush && i.statusCode == ite(old(i.wroteHeader), old(i.statusCode), 200) &&
+//@       (!old(i.isWriteHeaderFlush) ==> lastStatus == i.statusCode) && txVer == ite(old(i.wroteHeader), old(txVer), i.hdrVer)
+// (c) interrupted while buffering (limit reached under Reject, or phase 4 at the limit): nothing of b or of the buffer goes out,
+// the interruption's status replaces the handler's and is sent at once
+//@   ensures blockedWhileBuffering: !old(intr(i)) && !intrAt(ite(old(i.wroteHeader), old(txVer), i.hdrVer), i) &&
+//@       bufAt(ite(old(i.wroteHeader), old(txVer), i.hdrVer), i) && !old(i.wroteBufferedBodyToDownstream) && intr(i) ==>
+//@       downBytes == old(downBytes) && result0 == len(b) && isnil(result1) && !i.wroteBufferedBodyToDownstream && i.isWriteHeaderFlush &&
+//@       i.statusCode == itStatus(txIntr(txVer, i.tx), ite(old(i.wroteHeader), old(i.statusCode), 200)) &&
+//@       (!old(i.isWriteHeaderFlush) ==> lastStatus == i.statusCode)
+// (b) buffered, everything accepted: nothing goes downstream yet, not even the status line
+//@   ensures keptBuffering: !old(intr(i)) && !intrAt(ite(old(i.wroteHeader), old(txVer), i.hdrVer), i) &&
+//@       bufAt(ite(old(i.wroteHeader), old(txVer), i.hdrVer), i) && !old(i.wroteBufferedBodyToDownstream) && !intr(i) && isnil(result1) && !i.wroteBufferedBodyToDownstream ==>
+//@       downBytes == old(downBytes) && result0 == len(b) && headerWrites == old(headerWrites) &&
+//@       txResBuf(txVer, i.tx) == old(txResBuf(txVer, i.tx)) + old(str(b))
+// (b) buffered, only a prefix b[:n] accepted (n < len(b), n == 0 included): the status line, then the whole buffer, then b[n:]
+//@   ensures releasedNow: !old(intr(i)) && !intrAt(ite(old(i.wroteHeader), old(txVer), i.hdrVer), i) &&
+//@       bufAt(ite(old(i.wroteHeader), old(txVer), i.hdrVer), i) && !old(i.wroteBufferedBodyToDownstream) && !intr(i) && i.wroteBufferedBodyToDownstream ==>
+//@       len(txResBuf(txVer, i.tx)) - len(old(txResBuf(txVer, i.tx))) < len(b) &&
+//@       txResBuf(txVer, i.tx) == old(txResBuf(txVer, i.tx)) + old(str(b))[0:len(txResBuf(txVer, i.tx)) - len(old(txResBuf(txVer, i.tx)))] &&
+//@       downBytes == old(downBytes) + txResBuf(txVer, i.tx) + old(str(b))[len(txResBuf(txVer, i.tx)) - len(old(txResBuf(txVer, i.tx))):result0] &&
+//@       (result0 < len(b) ==> !isnil(result1)) && i.isWriteHeaderFlush && i.statusCode == ite(old(i.wroteHeader), old(i.statusCode), 200) &&
+//@       (!old(i.isWriteHeaderFlush) ==> lastStatus == i.statusCode)
+// without error and without interruption the handler is told that all of b was taken
+//@   ensures complete: !old(intr(i)) && !intr(i) && isnil(result1) ==> result0 == len(b)
+//@   ensures once: fwdOnce(old(i.isWriteHeaderFlush), i.isWriteHeaderFlush, old(headerWrites), headerWrites)
+//@   ensures noResend: old(i.isWriteHeaderFlush) ==> lastStatus == old(lastStatus)
+//@   ensures wrote: old(intr(i)) || i.wroteHeader
+// the status line precedes every body byte
+//@   at call "i.w.Write(b" requires statusFirst: i.isWriteHeaderFlush
+
+// Flush (C18): reaches the downstream flusher at most once per call, and only when flushing is allowed (the body is
+// not being buffered) and the status line has already gone out; it never sends body bytes or a status line itself.
+//@ func (*rwInterceptor).Flush props C18,C07
+//@   requires wired(i)
+//@   modifies i.wroteHeader, i.statusCode, i.isWriteHeaderFlush, i.allowFlushing, i.hdrVer, headerWrites, lastStatus, txVer, flushCalls
+//@   ensures atMostOnce: flushCalls == old(flushCalls) || flushCalls == old(flushCalls) + 1
+//@   ensures onlyWhenAllowed: flushCalls != old(flushCalls) ==> i.allowFlushing && i.isWriteHeaderFlush
+//@   ensures suppressedWhileBuffering: !i.allowFlushing || !i.isWriteHeaderFlush ==> flushCalls == old(flushCalls)
+//@   ensures noBody: downBytes == old(downBytes)
+//@   ensures headerRecorded: i.wroteHeader
+//@   ensures once: fwdOnce(old(i.isWriteHeaderFlush), i.isWriteHeaderFlush, old(headerWrites), headerWrites)
+//@   ensures noResend: old(i.isWriteHeaderFlush) ==> lastStatus == old(lastStatus)
+//@   ensures afterHeader: old(i.wroteHeader) ==> txVer == old(txVer) && i.statusCode == old(i.statusCode) && i.allowFlushing == old(i.allowFlushing) &&
+//@       i.isWriteHeaderFlush == old(i.isWriteHeaderFlush) && headerWrites == old(headerWrites)
+//@   at call "fl.Flush()" requires allowed: i.allowFlushing && i.isWriteHeaderFlush
+
+// The response processor returned by wrap (C18), run after the handler: an interruption raised by phase 4 sends the
+// interruption's status and none of the buffered body; otherwise the status line (the handler's) goes out and the
+// buffered body is released exactly once; nothing happens after a hijack or an earlier interruption.
+//@ func wrap$1 props C18,C07
+//@   requires i != nil && wired(i) && isDownstream(i.w) && tx == i.tx
+//@   modifies inferred, headerWrites, lastStatus, downBytes, ioVer, txVer
+//@   ensures hijacked: old(i.isHijacked) ==> isnil(result) && downBytes == old(downBytes) && headerWrites == old(headerWrites) && txVer == old(txVer)
+//@   ensures alreadyInterrupted: !old(i.isHijacked) && old(intr(i)) ==> isnil(result) && downBytes == old(downBytes) &&
+//@       headerWrites == old(headerWrites) && lastStatus == old(lastStatus) && txVer == old(txVer)
+//@   ensures blockedAtBody: !old(i.isHijacked) && !old(intr(i)) && old(buffering(i)) && intr(i) ==> downBytes == old(downBytes) && i.isWriteHeaderFlush &&
+//@       !i.wroteBufferedBodyToDownstream && (isnil(result) ==> i.statusCode == itStatus(txIntr(txVer, i.tx), old(i.statusCode)) &&
+//@       (!old(i.isWriteHeaderFlush) ==> lastStatus == i.statusCode))
+//@   ensures failed: !old(i.isHijacked) && !old(intr(i)) && old(buffering(i)) && !isnil(result) ==> i.isWriteHeaderFlush && !i.wroteBufferedBodyToDownstream
+//@   ensures released: !old(i.isHijacked) && !old(intr(i)) && old(buffering(i)) && !intr(i) && isnil(result) ==> i.wroteBufferedBodyToDownstream &&
+//@       downBytes == old(downBytes) + old(txResBuf(txVer, i.tx)) && i.isWriteHeaderFlush && i.statusCode == old(i.statusCode) &&
+//@       (!old(i.isWriteHeaderFlush) ==> lastStatus == i.statusCode)
+//@   ensures notBuffering: !old(i.isHijacked) && !old(intr(i)) && !old(buffering(i)) ==> isnil(result) && downBytes == old(downBytes) && txVer == old(txVer) &&
+//@       i.allowFlushing && i.isWriteHeaderFlush && i.statusCode == old(i.statusCode) && (!old(i.isWriteHeaderFlush) ==> lastStatus == i.statusCode)
+//@   ensures statusAlways: !old(i.isHijacked) && !old(intr(i)) ==> i.isWriteHeaderFlush
+//@   ensures once: fwdOnce(old(i.isWriteHeaderFlush), i.isWriteHeaderFlush, old(headerWrites), headerWrites)
+//@   ensures noResend: old(i.isWriteHeaderFlush) ==> lastStatus == old(lastStatus)
